@@ -8,6 +8,7 @@ from ..core import q, lst, natl, pair
 from .. import pb
 from . import c03
 
+NAMING = True
 ID = "C19"
 ORACLE = "Oracle.C19"
 PROPS = "Props/C19.v"
